@@ -220,12 +220,26 @@ func spacingRule(c *Check) {
 			return n != nil && n.Obj().Name() == "SshdLogEntry"
 		}
 		ds, _ := dropDeciders(pf, handled, nil)
-		leafOK := func(o *Org) bool { return o.K == "call" && o.Name == "len" }
+		leafOK := func(o *Org) bool {
+			if o.K == "param" {
+				return true // the whole record compared with a constant (an emptiness test)
+			}
+			if o.K != "call" {
+				return false
+			}
+			switch o.Name {
+			case "len", "strings.Contains", "strings.Index", "strings.IndexByte", "strings.IndexRune", "strings.Count":
+				return true // tests of the record's shape: is there a separator, how many fields
+			case "strings.Cut":
+				return o.Idx == 2 // the "found" result
+			}
+			return false
+		}
 		okP := true
 		for _, d := range ds {
 			if ok, w := condOnly(pr, d.If.Cond, leafOK, 0); !ok {
 				okP = false
-				c.Bad("spacing-preserved", "records given up by "+pf.Name(), p.InstrPos(d.If), "the parse function can return an empty entry depending on "+w+" (not only on the number of fields of the record): such a record produces nothing through the pipe although the processor handed the same PID and message directly would process it")
+				c.Bad("spacing-preserved", "records given up by "+pf.Name(), p.InstrPos(d.If), "the parse function can return an empty entry depending on "+w+" (not only on the shape of the record: the number of fields, the presence of the separator): such a record produces nothing through the pipe although the processor handed the same PID and message directly would process it")
 			}
 		}
 		if okP {
